@@ -75,3 +75,17 @@ package parse
 //@     invariant p.errors.arr == old(p.errors.arr) || fresh(p.errors.arr)
 //@     invariant m.Vars.arr == 0 || fresh(m.Vars.arr)
 //@     decreases scanLeft + ite(p.tok == 1, 0, 1)
+
+// ---- the two sides of a patch (C13) -----------------------------------------------------------------------
+
+// The first byte of a patch line alone decides where the line goes: '-' only to the before side, '+' only
+// to the after side, anything else (a space, a tab, code) to both - however the Go code on the line begins.
+//@ func splitPatch(patch) (before, after)
+//@   requires typing: forall i int {patch[i]} :: 0 <= i && i < len(patch) ==> patch[i] != nil
+//@   requires typing: forall i int, j int {patch[i], patch[j]} :: 0 <= i && i < j && j < len(patch) ==> patch[i] != patch[j]
+//@   at call io.Writer.Write assert [C13] the-first-byte-of-a-line-alone-decides-its-side: (old(len(line.Text)) > 0 && old(line.Text[0]) == '-' ==> arg0 == boxed(addr(minus))) && (old(len(line.Text)) > 0 && old(line.Text[0]) == '+' ==> arg0 == boxed(addr(plus))) && (!(old(len(line.Text)) > 0 && (old(line.Text[0]) == '-' || old(line.Text[0]) == '+')) ==> arg0 == both)
+//@   at call io.Writer.Write#0 assert [C13] only-the-marker-is-removed: (old(len(line.Text)) > 0 && (old(line.Text[0]) == '-' || old(line.Text[0]) == '+') ==> arg1.arr == old(line.Text.arr) && arg1.off == old(line.Text.off) + 1 && len(arg1) == old(len(line.Text)) - 1) && (!(old(len(line.Text)) > 0 && (old(line.Text[0]) == '-' || old(line.Text[0]) == '+')) ==> arg1 == old(line.Text))
+//@   loop 0
+//@     invariant forall j int {patch[j]} :: #k <= j && j < len(patch) ==> patch[j].Text == old(patch[j].Text) && patch[j].StartPos == old(patch[j].StartPos)
+//@     invariant minusLines.arr == 0 || fresh(minusLines.arr)
+//@     invariant plusLines.arr == 0 || fresh(plusLines.arr)
